@@ -24,6 +24,7 @@ func (sp SessionSpec) build(rng *rand.Rand, det *detReader) *Sim {
 	for _, id := range s.IDs {
 		s.AddMulti(id, sp.Start(id), sp.SessionID)
 	}
+	s.Seal()
 	return s
 }
 
